@@ -86,7 +86,8 @@ def random_cfg(r: random.Random, rel: bool = False) -> dict:
                 for o in ("doc:1", "doc:2", "doc:7", "file:1", "doc:None"):
                     if r.random() < 0.25:
                         tbl.append([s, rl, o, gen.choice(r, [True, False, None])])
-        cfg["rel"] = {"table": tbl, "default": gen.choice(r, [False, False, True, None])}
+        cfg["rel"] = {"table": tbl, "default": gen.choice(r, [False, False, True, None]),
+                      "raise_with": gen.choice(r, ["RuntimeError", "RuntimeError", "TimeoutError", "asyncio.TimeoutError", "OSError", "KeyError"])}
     if r.random() < 0.3:
         cfg["metrics"] = True
     if r.random() < 0.4:
